@@ -65,6 +65,35 @@ func WithOptions(opts *CorrectionOptions) schema.Option {
 	return func(o interface{}) {
 		o2 := o.(*CorrectionOptions)
 		*o2 = *opts
+		// options applied after this one (WithExtension...) must not write
+		// to the caller's instance
+		o2.detach()
+	}
+}
+
+// detach replaces the extensions, stamps and date with copies, so that nothing
+// done to the options reaches the values they were built from.
+func (o *CorrectionOptions) detach() {
+	if o.IssueDate != nil {
+		d := *o.IssueDate
+		o.IssueDate = &d
+	}
+	if o.Ext != nil {
+		ext := make(tax.Extensions, len(o.Ext))
+		for k, v := range o.Ext {
+			ext[k] = v
+		}
+		o.Ext = ext
+	}
+	if len(o.Stamps) > 0 {
+		stamps := make([]*head.Stamp, 0, len(o.Stamps))
+		for _, s := range o.Stamps {
+			if s != nil {
+				sc := *s
+				stamps = append(stamps, &sc)
+			}
+		}
+		o.Stamps = stamps
 	}
 }
 
@@ -362,27 +391,7 @@ func prepareCorrectionOptions(o *CorrectionOptions, opts ...schema.Option) error
 	// What follows, and the normalizers run on the corrected invoice, modify
 	// the extensions, stamps and date: never share them with the values the
 	// caller provided, which may be used again.
-	if o.IssueDate != nil {
-		d := *o.IssueDate
-		o.IssueDate = &d
-	}
-	if o.Ext != nil {
-		ext := make(tax.Extensions, len(o.Ext))
-		for k, v := range o.Ext {
-			ext[k] = v
-		}
-		o.Ext = ext
-	}
-	if len(o.Stamps) > 0 {
-		stamps := make([]*head.Stamp, 0, len(o.Stamps))
-		for _, s := range o.Stamps {
-			if s != nil {
-				sc := *s
-				stamps = append(stamps, &sc)
-			}
-		}
-		o.Stamps = stamps
-	}
+	o.detach()
 
 	// Copy over the stamps from the previous header
 	if o.Head != nil && len(o.Head.Stamps) > 0 {
